@@ -205,7 +205,42 @@ pub struct CancelProbe {
 
 pub const OVERRUN_MESSAGE: &str = "VERIF_OVERRUN";
 
+thread_local! {
+    // The cancellation token of the search this thread is working for. The quiescence search
+    // has no token parameter, its nodes reach the node clock through this binding.
+    static BOUND: std::cell::RefCell<Option<CancellationToken>> = std::cell::RefCell::new(None);
+}
+
+pub struct BindGuard(bool);
+
+impl Drop for BindGuard {
+    fn drop(&mut self) {
+        if self.0 {
+            BOUND.with(|b| *b.borrow_mut() = None);
+        }
+    }
+}
+
+/// One node of the quiescence search (called at the top of `quiescence_search`).
+pub fn on_quiescence_node() {
+    BOUND.with(|b| {
+        if let Some(t) = b.borrow().as_ref() {
+            t.verif_on_node();
+        }
+    });
+}
+
 impl CancellationToken {
+    /// Makes this token's node clock reachable from `on_quiescence_node` on this thread.
+    pub(super) fn verif_bind_thread(&self) -> BindGuard {
+        if self.verif_probe.is_none() {
+            return BindGuard(false);
+        }
+
+        BOUND.with(|b| *b.borrow_mut() = Some(self.clone()));
+        BindGuard(true)
+    }
+
     pub(super) fn verif_on_node(&self) {
         if let Some(p) = &self.verif_probe {
             let t = p.total.fetch_add(1, Ordering::SeqCst) + 1;
